@@ -1,5 +1,22 @@
 import RsjModel.Util
 import RsjModel.Span
+import RsjModel.Gc
+import RsjModel.Sort
+import RsjModel.Lexer
+import RsjModel.Parser
+import RsjModel.Json
+import RsjModel.Codec
+import RsjModel.Object
+import RsjModel.Format
+import RsjModel.Str
+import RsjModel.Compare
+import RsjModel.Eval
+import RsjModel.Analyze
+import RsjModel.Thunk
+import RsjModel.TraceStack
+import RsjModel.Num
+import RsjModel.Cli
+import RsjModel.Import
 
 open Rsj
 
@@ -10,6 +27,23 @@ def dispatch (line : String) : String :=
     let r : Option String :=
       match op with
       | "span" => Span.handle args
+      | "gcscript" => Gc.handle args
+      | "sort" => Sort.handle args
+      | "lex" => Lexer.handle args
+      | "parse" => Parser.handle args
+      | "json" => Json.handle args
+      | "codec" => Codec.handle args
+      | "obj" => Object.handle args
+      | "fmt" => Format.handle args
+      | "str" => Str.handle args
+      | "cmp" => Compare.handle args
+      | "core" => Eval.handle args
+      | "ana" => Analyze.handle args
+      | "thunk" => Thunk.handle args
+      | "tstack" => TraceStack.handle args
+      | "num" => Num.handle args
+      | "cli" => Cli.handle args
+      | "imp" => Import.handle args
       | _ => none
     r.getD "bad-op"
 
